@@ -268,17 +268,47 @@ func (c *Chain) Balances(ctx sdk.Context, denoms []string) map[string]map[string
 	for _, d := range denoms {
 		want[d] = true
 	}
-	c.App.BankKeeper.IterateAllBalances(ctx, func(a sdk.AccAddress, coin sdk.Coin) bool {
-		if !want[coin.Denom] {
+	iterate := func() (ok bool) {
+		defer func() {
+			if recover() != nil {
+				ok = false
+			}
+		}()
+		c.App.BankKeeper.IterateAllBalances(ctx, func(a sdk.AccAddress, coin sdk.Coin) bool {
+			if !want[coin.Denom] {
+				return false
+			}
+			l, ok := c.labels[a.String()]
+			if !ok {
+				l = "other"
+			}
+			out[l][coin.Denom] += coin.Amount.Int64()
 			return false
+		})
+		return true
+	}
+	if !iterate() {
+		// the bank store cannot be walked (a balance was written under an address that is not one, e.g. the empty address):
+		// read the labelled accounts one by one and attribute the rest of the supply to "other"
+		for _, l := range c.labels {
+			out[l] = zero()
 		}
-		l, ok := c.labels[a.String()]
-		if !ok {
-			l = "other"
+		out["other"] = zero()
+		for addr, l := range c.labels {
+			if a, err := sdk.AccAddressFromBech32(addr); err == nil {
+				for _, d := range denoms {
+					out[l][d] += c.App.BankKeeper.GetBalance(ctx, a, d).Amount.Int64()
+				}
+			}
 		}
-		out[l][coin.Denom] += coin.Amount.Int64()
-		return false
-	})
+		for _, d := range denoms {
+			sum := int64(0)
+			for _, m := range out {
+				sum += m[d]
+			}
+			out["other"][d] += c.App.BankKeeper.GetSupply(ctx, d).Amount.Int64() - sum
+		}
+	}
 	return out
 }
 
